@@ -4,6 +4,7 @@ import Drv.C17
 import Drv.C20
 import Drv.C19
 import Drv.C01
+import Drv.C03
 /- Line protocol driver: one command per line in, one line out. -/
 open Drv
 
@@ -19,6 +20,7 @@ def dispatch (line : String) : String :=
   | "c19" :: args => C19.cmd args
   | "c01.enc" :: _ => C01.cmdEnc (C01.restAfter line 1)
   | "c01.dec" :: lim :: mono :: rows :: hex :: _ => C01.cmdDec lim mono rows hex (C01.restAfter line 5)
+  | "c03.recv" :: args => C03.cmd args
   | "ping" :: _ => "pong"
   | _ => "bad-op"
 
